@@ -32,11 +32,11 @@ fn workers() -> usize {
 /// influence another through a static (DESIGN.md 2.2).
 fn warm_up() {
     hashseam::set_thread_hash_seed(0x00C0_FFEE);
-    worlds::hierarchy::warm_up();
-    worlds::batched::warm_up();
-    worlds::authz::warm_up();
-    worlds::frontends::warm_up();
-    worlds::storagefaults::warm_up();
+    // cedar code: a panic in here is not the harness's to report (the cases will); carry on
+    let parts: [fn(); 5] = [worlds::hierarchy::warm_up, worlds::batched::warm_up, worlds::authz::warm_up, worlds::frontends::warm_up, worlds::storagefaults::warm_up];
+    for f in parts {
+        let _ = std::panic::catch_unwind(f);
+    }
 }
 
 fn run_world<W: World>(world: W, tier: Tier) -> i32 {
